@@ -8,7 +8,7 @@
      Variant = "fixed"       the transcription of the proposed repair   (must meet the reference)
    and every result is judged by the reference relation StepCause of FilesFS. *)
 EXTENDS FilesFS, TLC, Json, SequencesExt
-CONSTANTS Variant, Large, MaxFiles, MaxOps, DeepOps
+CONSTANTS Variant, Large, MaxFiles, FullOps, MaxOps, DeepOps
 
 nA == <<97>>                      \* a        (empty file)
 nB == <<98>>                      \* b
@@ -79,23 +79,25 @@ ImpliedDirsExist == \A i \in DOMAIN F : \A k \in 1..Len(F[i].n) :
 FilesOpenAsFiles == \A i \in DOMAIN F : RefOpen(F, F[i].n).kind = "file"
 
 (* case export (only in the "ref" run): one line per tree x probe name, carrying every operation sequence to
-   run on a fresh handle of that name: all sequences of length <= MaxOps over the full operation alphabet, plus
-   the sequences of length MaxOps+1..DeepOps over the paging alphabet (ReadDir(-1|1|2) / Read(0|1|2)).
+   run on a fresh handle of that name:
+     - all sequences of length <= FullOps over the full operation alphabet (OpsFor),
+     - all sequences of length <= MaxOps over the state-changing operations (CoreOps),
+     - all sequences of length <= DeepOps over the paging operations (PagingOps).
+   (The model check itself explores every operation in every reachable handle state, whatever the length.)
    An operation is written as one integer: 0 stat, 1 close, 10+n read(n), 20+n readdir(n). *)
 Code(o) == CASE o.op = "stat" -> 0 [] o.op = "close" -> 1 [] o.op = "read" -> 10 + o.n [] o.op = "readdir" -> 20 + o.n
-PagingOps(kind) == IF kind = "file" THEN {Op("read", 0), Op("read", 1), Op("read", 2)}
+PagingOps(kind) == IF kind = "file" THEN {Op("read", 1), Op("read", 2)}
                    ELSE {Op("readdir", -1), Op("readdir", 1), Op("readdir", 2)}
-SeqSetOf(kind) == SeqsUpTo(OpsFor(kind), MaxOps) \cup UNION {[1..k -> PagingOps(kind)] : k \in (MaxOps + 1)..DeepOps}
+CoreOps(kind) == PagingOps(kind) \cup {Op("close", 0)}
+SeqSetOf(kind) == SeqsUpTo(OpsFor(kind), FullOps) \cup SeqsUpTo(CoreOps(kind), MaxOps) \cup SeqsUpTo(PagingOps(kind), DeepOps)
 Coded(S) == AsTuple([i \in 1..Len(S) |-> AsTuple([j \in 1..Len(S[i]) |-> Code(S[i][j])])])
-FileOpSeqs == Coded(SetToSeq(SeqSetOf("file")))
-DirOpSeqs == Coded(SetToSeq(SeqSetOf("dir")))
-OpSeqsOf(kind) == IF kind = "file" THEN FileOpSeqs ELSE IF kind = "dir" THEN DirOpSeqs ELSE << <<>> >>
-TreeSeq == SetToSeq(Trees)
-ProbeSeq == SetToSeq(Probes)
-NP == Len(ProbeSeq)
-Cases == [i \in 1..(Len(TreeSeq) * NP) |->
-            LET T == TreeSeq[((i - 1) \div NP) + 1]
-                q == ProbeSeq[((i - 1) % NP) + 1] IN
-            [id |-> i, files |-> T, name |-> q, seqs |-> OpSeqsOf(RefOpen(T, q).kind)]]
+\* (everything used more than once is an operator ARGUMENT: TLC evaluates an argument once)
+CasesWith(TS, PS, FS, DS) ==
+  [i \in 1..(Len(TS) * Len(PS)) |->
+      LET T == TS[((i - 1) \div Len(PS)) + 1]
+          q == PS[((i - 1) % Len(PS)) + 1] IN
+      [id |-> i, files |-> T, name |-> q,
+       seqs |-> LET k == RefOpen(T, q).kind IN IF k = "file" THEN FS ELSE IF k = "dir" THEN DS ELSE << <<>> >>]]
+Cases == CasesWith(SetToSeq(Trees), SetToSeq(Probes), Coded(SetToSeq(SeqSetOf("file"))), Coded(SetToSeq(SeqSetOf("dir"))))
 ASSUME Variant = "ref" => ndJsonSerialize("cases.ndjson", Cases)
 =============================================================================
